@@ -110,6 +110,12 @@ MCPresence == \E c \in Pick(Open), k \in Pick({"kAll", "kWO"}), w \in Pick(Words
     /\ Presence(c, k, w, "ok", status, chg, 1)
     /\ Emit([n |-> "presence", c |-> c, k |-> k, w |-> w, syn |-> "ok", status |-> status, chg |-> chg])
 
+MCHistory == \E c \in Pick(Open), k \in PickW(SubKeyW), w \in Pick(Filters), last \in Pick(Lasts), win \in Pick(Wins) :
+    /\ Fam \in {"retain", "all"} /\ ~Small
+    /\ (win # "none" => last = 2)
+    /\ HistoryReq(c, k, w, "ok", last, win, 1)
+    /\ Emit([n |-> "history", c |-> c, k |-> k, w |-> w, syn |-> "ok", last |-> last, win |-> win])
+
 MCEnd == \E c \in Pick(Open), how \in Pick({"disconnect", "drop", "cut", "garbage", "panic"}) :
     /\ (Gen = "sim" /\ Fam \notin {"ending", "retain"}) => RandomElement(1..4) = 1      \* endings are rarer in long random sessions
     /\ In({"ending", "presence"}) \/ (Fam \in {"pubsub", "hostile", "retain"} /\ how = "drop")
@@ -133,5 +139,5 @@ MCCluster == \E fn \in Pick({"OnGossip", "OnGossipBroadcast", "OnGossipUnicast",
     /\ ClusterHostile /\ Emit([n |-> "cluster", fn |-> fn, idx |-> i])
 
 MCNext == /\ nops < MaxOps
-          /\ (MCConnect \/ MCSubscribe \/ MCUnsubscribe \/ MCPublish \/ MCPublishVia \/ MCLink \/ MCPresence \/ MCEnd \/ MCRestart \/ MCHostile \/ MCStranger \/ MCCluster)
+          /\ (MCConnect \/ MCSubscribe \/ MCUnsubscribe \/ MCPublish \/ MCPublishVia \/ MCLink \/ MCPresence \/ MCHistory \/ MCEnd \/ MCRestart \/ MCHostile \/ MCStranger \/ MCCluster)
 =============================================================================
